@@ -11,3 +11,24 @@ func init() {
 		Rule:      "seeded random configurations: 1..3 event types, pipelines built by a random registration history (register/overwrite/remove/remove+nodes/re-register node) replayed on a reference model, 2..5 recording nodes per pipeline drawn from 7 shared ids, behaviours pass/replace/drop/error chosen per (node object, provenance); 1..3 Sends per type incl. an unregistered type, context never cancelled / cancelled before the call / cancelled inside the k-th protocol hook, seeded yields at hooks; oracle = existence of a decomposition of the observed node invocations into the model's expected traversals (pointer identity + logical-clock order). A case counts as non-trivial when the sent type has >=2 registered pipelines and some node id is shared; distinct = distinct (pipeline shapes with behaviours, cancelled?, #invocations).",
 	})
 }
+
+func init() {
+	reg("C02", &prop{
+		Pkg: "broker", Test: "TestC02", QuickBatches: 8, ThoroughBatches: 48,
+		QuickTimeoutS: 300, ThoroughTimeoutS: 2400, GoMaxProcs: []int{4, 1, 16, 2}, Parallel: 8,
+		Level: "fault_enumeration", DesignRef: "DESIGN.md section 4, C02",
+		Technique: "runtime monitoring with cancel-point enumeration: every outcome vector (success/filtered/error per pipeline, n<=3) x thresholds, the context cancelled synchronously inside every protocol hook of the dispatch; Status/error compared with the node log and a threshold model",
+		LevelText: "Fault enumeration by execution: for every outcome vector of up to 3 pipelines (exhaustive; n=4 sampled in the thorough tier), shared and separate sinks, and threshold pairs in 0..n+1, Send is executed once uncancelled to learn its hook trace and then once per protocol hook with the context cancelled inside that hook (plus before the call). An oracle compares Complete/CompleteSinks/Warnings/err with what the recording nodes really returned and with the thresholds in force. Random registry configurations and random setter/getter/Send sequences over three types cover sharing and the per-type threshold model.",
+		LevelNote: "Trusted: harness recording nodes and the reference model; cancel points are those reachable through the verif hooks in graph.go (all suspension points of the protocol). Goroutine schedules between hooks are sampled (seeded yields, GOMAXPROCS 1/2/4/16).",
+		Rule:      "part A: all outcome vectors over {success, filtered, error at filter, error at sink, error at formatter} for 0..3 pipelines (x shared sink) x threshold pairs, each also run with the context cancelled at every hook hit; part B: random configurations from C01's generator with random thresholds and random cancel points; part C: random threshold setter/getter/Send histories over 3 types. Non-trivial = a Send over >=1 pipelines with its (vector, thresholds, cancel point) or (history) signature; distinct signatures are counted.",
+	})
+	reg("C03", &prop{
+		Pkg: "broker", Test: "TestC03", QuickBatches: 8, ThoroughBatches: 48,
+		QuickTimeoutS: 400, ThoroughTimeoutS: 2400, GoMaxProcs: []int{4, 2, 16, 1}, Parallel: 8,
+		Level: "fault_enumeration", DesignRef: "DESIGN.md section 4, C03",
+		Technique: "runtime monitoring: gated (blocking) recording nodes, cancellation injected at every protocol hook, goroutine-dump inspector for leaks and blocked-state witnesses, watchdog with three-valued verdict",
+		LevelText: "Fault enumeration by execution: configurations of <=3 pipelines x <=3 inner nodes (+formatter, sink) with outcomes pass/replace/drop/error/block; for each, Send is run never-cancelled, cancelled before the call and cancelled inside each hook hit of the dispatch protocol (all hits in the thorough tier, a seeded sample of 6 in the quick tier), with blocking nodes held at harness gates. Decided at the boundary: Send must return while the gates are still closed once cancelled, must not return before all pipelines finished when never cancelled, and after the gates open no goroutine with graph.process/doProcess frames may remain (two goroutine dumps). Panics end the child process and are reported by the driver.",
+		LevelNote: "Trusted: goroutine dump parsing, gates. 'Promptly' is decided by a gate (Send must return before the harness opens it), never by a tuned duration; watchdog 10 s => inconclusive unless the goroutine is provably parked in the library.",
+		Rule:      "seeded configurations (1..3 pipelines, 0..2 filters each incl. a shared filter, formatter, sink; ~25% of nodes block at a gate) x cancel points {before call, never, k-th hook hit}; seeded yields at hooks; non-trivial = configuration with a blocking node or a cancel point; distinct = (configuration, hook at which the cancel landed).",
+	})
+}
